@@ -269,7 +269,7 @@ def run(repo, chk):
         lvl = [e.func for e in ev if e.kind == 'call' and e.recv is not None and src(e.recv) == 'self.checkpoints']
         ok = lv == ['self.local_vars.new_child()', 'self.local_vars.parents'] and lvl == ['.push_level', '.pop_level']
         chk.expect(ok, 'C08.L3', 'gen_block[CodeBlock]::scope tables', f'local_vars {lv}, checkpoints {lvl}', GEN)
-        sp = [e for e in ev if e.kind == 'assert' and 'self.stack == start_point' in e.text]
+        sp = [e for e in ev if e.kind == 'assert' and _efg.assert_text('self.stack == start_point') in e.text]
         chk.expect(bool(sp), 'C08.L3', 'gen_block[CodeBlock]::stack restored', 'assert self.stack == start_point', GEN)
     from . import c16
     # the skip decision relies on the exit-mode analysis never under-reporting normal completion
@@ -282,7 +282,7 @@ def run(repo, chk):
         asg = [(e.target, src(e.value)) for e in ev if e.kind == 'assign' and e.target.startswith('self.')]
         ok = ('self.stack', 'bubble.prev') in asg and any(t.startswith('self.allocated_arrays[bubble.prev.array_num:]') for t, _ in asg)
         first = next((e for e in ev if e.kind == 'assert'), None)
-        ok = ok and first is not None and first.text == 'self.stack == bubble.cur'
+        ok = ok and first is not None and first.text == _efg.assert_text('self.stack == bubble.cur')
         chk.expect(ok, 'C08.L4', 'pop::bookkeeping', f'pop must check LIFO order, truncate allocated_arrays and restore self.stack: {asg}', GEN)
         if conds.get('static') is True:
             subs = [e for e in ev if e.kind == 'emit' and e.ctor == 'asm.Sub']
